@@ -142,6 +142,17 @@ class SyncRun:
         sel = st._selected if st is not None else None
         return None if sel is None else sel.lookup
 
+    def dump(self, mbx: str) -> None:
+        """glass-box dump of a mailbox: uids, permanent flags, stored recent bits"""
+        mset = self.w.mailbox_set()
+        data = mset._inbox if mbx.upper() == 'INBOX' else mset._set.get(mbx)
+        uids = sorted(data._messages) if data is not None else []
+        self.events.append({
+            'e': 'dump', 'mbx': mbx, 'uids': uids,
+            'flags': [sorted(bytes(f).decode() for f in data._messages[u].permanent_flags)
+                      for u in uids],
+            'rbits': [bool(data._messages[u].recent) for u in uids]})
+
     def selected_ro(self, s: str) -> bool:
         st = self.w.conns[s].state
         sel = st._selected if st is not None else None
@@ -251,7 +262,7 @@ class SyncRun:
         ev.append({'e': 'tagged', 's': s, 'cond': cond, 'code': code,
                    'codeargs': r.code[1].decode() if r.code else '',
                    'selected': view is not None, 'view': view or [],
-                   'ro': self.selected_ro(s),
+                   'ro': self.selected_ro(s), 'wasro': bool(inf and inf.get('wasro')),
                    'cmd': list(map(_j, cmd)), 'mbx': self.selected_name(s) or ''})
 
     # -- driver actions ------------------------------------------------------------
@@ -277,7 +288,8 @@ class SyncRun:
             addressed = self._addressed(view, cmd[1], cmd[2])
         self.tags[s] += 1
         tag = f'{s}{self.tags[s]}'.encode()
-        self.inflight[s] = {'cmd': cmd, 'addressed': addressed, 'tag': tag}
+        self.inflight[s] = {'cmd': cmd, 'addressed': addressed, 'tag': tag,
+                            'wasro': self.selected_ro(s)}
         self.events.append({'e': 'start', 's': s, 'k': kind, 'selected': view is not None,
                             'view': view or [], 'cmd': list(map(_j, cmd)),
                             'mbx': self.selected_name(s) or ''})
